@@ -6,6 +6,12 @@ ROOT = os.path.dirname(os.path.dirname(os.path.abspath(__file__)))
 PAGER = "TLA+ mechanism model Pager.tla checked exhaustively by TLC (all interleavings of readers, savepoint handles and every critical section of the writer), "
 
 CLAIMS = {
+ "C11": dict(cat="fault_enumeration", tech="TLA+ oracle (Kv.tla CrashProbe + PagerInv.tla Owner1) for enumeration of open paths: clean close, every crash image (C01 machinery) incl. crashes during recovery; TLC trace validation of the observations and of the allocation state projected right after the open",
+   text="every open path is enumerated on real crash images and clean reopens; the recovered database must pass check_integrity with unchanged contents, its allocator state must be exactly the owned pages (sampled images), writes after recovery must not damage contents.",
+   note="allocation-state projection on a sample of crash images; known finding C11/integrity-false-after-unpersisted-growth is reported separately", ref="DESIGN.md 4/C11"),
+ "C13": dict(cat="fault_enumeration", tech="TLA+ oracle (Kv.tla Compact + CrashAtomic) with TLC trace validation of compaction-heavy histories and crash enumeration of every backend operation issued during compaction",
+   text="contents unchanged, refusals as documented, file never larger, bounded syncs, and all crash points inside compaction recover to the unchanged contents.",
+   note="pass bound is a function of the file size (8 * (pages + 8) syncs)", ref="DESIGN.md 4/C13"),
  "C15": dict(cat="exploration", tech="TLA+ spec KeyOrder.tla (separator rules transcribed, contract checked by TLC over small domains) + enumeration of real encodings of all built-in key types judged by TLC (KeyOrderTrace.tla)",
    text="exploration with a specification oracle: the contract (order equals value order, a <= sep < b, no longer than a, valid encoding, round trip) is stated in TLA+, the separator rules are model-checked on small domains, and every ordered pair of a per-type corpus of real encodings is judged by TLC.",
    note="pure functions: the specification is the oracle, not an explorer; wider-than-8-bit types are sampled (extremes + byte-position + random)", ref="DESIGN.md 4/C15"),
